@@ -22,6 +22,11 @@ def _tag(x):
     return 'other:' + type(x).__name__
 
 
+# (probe key, string): '' and strings with leading / trailing / only whitespace (space, tab, newline, CR)
+EDGE_STRINGS = [('empty', ''), ('space', ' '), ('trail', 'x '), ('lead', ' x'), ('tabnl', '\tx\n'), ('nl', '\n'),
+                ('crlf', 'x = 1 \r\n'), ('both', ' a b ')]
+
+
 def observe():
     """[(probe name, tag)] in a fixed order."""
     from pandas import DataFrame
@@ -43,6 +48,22 @@ def observe():
     out.append(('int_mixed_present', _tag(cells([3, None])[0])))
     out.append(('int_all_missing', _tag(cells([None, None])[0])))
     out.append(('int_full_present', _tag(cells([3, 4])[0])))
+
+    # string IDENTITY of present entries with edge whitespace / the empty string ('' is not None!): the model moves
+    # strings as opaque values (`encodeStr c _ (some s) = .str s`), so pandas must hand every such string back
+    # unchanged -- next to another str (`full`), next to a missing entry (`mixed`) and in a column that holds nothing
+    # else (`alone`) -- and must not take '' / a whitespace-only string for a missing entry (`*_mixed_missing`: the
+    # None next to it is still coerced exactly like the None next to 'a').
+    def same(values, i):
+        v = cells(values)[i]
+        return 'same' if isinstance(v, str) and str(v) == values[i] else 'altered:' + _tag(v)
+
+    for key, s in EDGE_STRINGS:
+        out.append((f'str_{key}_full', same([s, 'b'], 0)))
+        out.append((f'str_{key}_mixed', same([s, None], 0)))
+        out.append((f'str_{key}_alone', same([s, s], 1)))
+    out.append(('str_empty_mixed_missing', _tag(cells(['', None])[1])))
+    out.append(('str_space_mixed_missing', _tag(cells([' ', None, '\n'])[1])))
     return out
 
 
